@@ -10,7 +10,9 @@ RULE = ("every graph on n<=3 nodes over the 9 per-pair kinds {none,->,<-,<->,->&
         "ADMGs with 1-2 edits: the three functions are called on G0 and discarded, G0 is edited in place, the judged calls run on the "
         "same object against the model of the final graph. boundary stream: the empty graph (fresh / emptied in place by remove_nodes_from after a warm-up), isolated nodes only "
         "(n<=5), a node dropped in place, each with L, S omitted and with explicit empty sets (every ADMG(n<=3) also with explicit empty "
-        "sets); argument integrity on every case (graph snapshot, the two set objects stay empty). chain stream: 400 (5000) planted all-bidirected collider chains x <-> c1 <-> .. <-> ck <-> y with k = 4..6 (n = 6..8), each collider an "
+        "sets); argument integrity on every case (graph snapshot, the two set objects stay empty). union stream: 420 (4000) disjoint unions of 2-4 parts (8-16 nodes, at least two parts with >= 4 nodes: non-maximal / maximal / complete "
+        "districts of equal and different sizes, almost directed cycles, random ancestral and non-ancestral parts, DAG parts whose nodes are "
+        "singleton districts), every order of the parts, labels interleaved or contiguous, model only. chain stream: 400 (5000) planted all-bidirected collider chains x <-> c1 <-> .. <-> ck <-> y with k = 4..6 (n = 6..8), each collider an "
         "ancestor of x only / y only / both (interleaved at random, directly or through an intermediate), ancestral and non-maximal by "
         "construction, relabelled and with varied insertion order. shaped stream: 350 (4000) ancestral graphs with 6-8 nodes built around an inducing path x <-> c1 <-> .. <-> ck <-> y whose colliders "
         "reach x / y through directed paths of length 1-3, with random decorations and relabellings (most are non-maximal; the model decides). "
@@ -245,9 +247,86 @@ def chain_cases(tier, rng):
         yield c
 
 
+def disjoint_union(parts, rng, interleave=True):
+    """relabel the parts apart; with interleave the labels of all parts are permuted together and the node order shuffled,
+    so that the components interleave in every iteration order"""
+    V, D, B, U = [], [], [], []
+    off = 0
+    for g in parts:
+        m = {v: off + i for i, v in enumerate(g["V"])}
+        V += [m[v] for v in g["V"]]
+        D += [(m[a], m[b]) for a, b in g["D"]]
+        B += [(m[a], m[b]) for a, b in g["B"]]
+        U += [(m[a], m[b]) for a, b in g["U"]]
+        off += len(g["V"])
+    g = gr.G(V, D=D, B=B, U=U)
+    if interleave:
+        perm = list(range(off))
+        rng.shuffle(perm)
+        g = gr.relabel(g, lambda v: perm[v])
+        rng.shuffle(g["V"])
+    return g
+
+
+NM4 = gr.G(range(4), D=[(1, 3), (2, 0)], B=[(0, 1), (1, 2), (2, 3)])     # x<->a<->b<->y, a->y, b->x: ancestral, NOT maximal
+M4 = gr.G(range(4), B=[(0, 1), (1, 2), (2, 3)])                           # the same district without the directed edges: maximal
+NM6 = gr.G(range(6), D=[(2, 4), (4, 1), (3, 5), (5, 0)], B=[(0, 2), (2, 3), (3, 1)])
+ADC4 = gr.G(range(4), D=[(0, 1), (1, 2)], B=[(0, 2), (2, 3)])             # almost directed cycle
+K4 = gr.G(range(4), B=[(0, 1), (0, 2), (0, 3), (1, 2), (1, 3), (2, 3)])   # one complete district: maximal
+
+
+def union_parts(rng, pool4):
+    """2-4 parts, at least two of them with >= 4 nodes; equal and different sizes; one district or several; (non-)maximal, (non-)ancestral"""
+    def big():
+        r = rng.random()
+        if r < 0.25:
+            return NM4
+        if r < 0.4:
+            return M4
+        if r < 0.5:
+            return K4
+        if r < 0.58:
+            return ADC4
+        if r < 0.68:
+            return NM6
+        if r < 0.8:
+            return gr.random_kinds_graph(rng, rng.randint(4, 6), ["none", "->", "<-", "<->"], p_edge=rng.choice([0.3, 0.5, 0.7]))
+        if r < 0.9:
+            return gr.random_kinds_graph(rng, rng.randint(4, 5), gr.DAG_KINDS, p_edge=0.5)     # every node its own district
+        return rng.choice(pool4)
+    parts = [big(), big()]
+    for _ in range(rng.randint(0, 2)):
+        parts.append(big() if rng.random() < 0.4 else gr.random_kinds_graph(rng, rng.randint(1, 3), gr.ADMG_KINDS, p_edge=0.5))
+    return parts
+
+
+def union_cases(tier, rng):
+    """DISJOINT UNIONS (8-16 nodes): several non-trivial connected components / districts at once; every order of the parts;
+    interleaved and contiguous labellings (model only: the brute-force oracles are off)"""
+    pool4 = [g for g in gr.enum_admg(4) if len(g["B"]) >= 2 and rng.random() < 0.02]
+    made, want = 0, (420 if tier == "quick" else 4000)
+    # the critical pairs first: a non-maximal part next to a maximal one of EQUAL size, in both orders
+    for a, b in ((NM4, M4), (NM4, K4), (NM4, NM4), (M4, M4), (NM4, ADC4), (NM6, NM4), (NM6, gr.G(range(6), B=[(i, i + 1) for i in range(5)]))):
+        for parts in ([a, b], [b, a], [a, b, gr.G(range(2), D=[(0, 1)])], [gr.G([0]), b, a]):
+            for inter in (False, True, True):
+                yield {"kind": "union-crit", "g": disjoint_union(parts, rng, inter), "oracle": False}
+    while made < want:
+        parts = union_parts(rng, pool4)
+        if sum(len(g["V"]) for g in parts) > 16:
+            continue
+        orders = list(itertools.permutations(parts)) if len(parts) <= 3 else [parts, parts[::-1]]
+        for od in orders:
+            c = {"kind": "union%d" % len(parts), "g": disjoint_union(list(od), rng, made % 4 != 0), "oracle": False}
+            if made % 5 == 4:
+                c["_order"] = made
+            made += 1
+            yield c
+
+
 def gen_cases(tier, rng):
     quick = tier == "quick"
     yield from boundary_cases(tier, rng)
+    yield from union_cases(tier, rng)
     yield from chain_cases(tier, rng)
     yield from shaped_cases(tier, rng)
     yield from dense_cases(tier, rng)
